@@ -20,6 +20,12 @@ def as_literal(p: Union[str, int, float, bool, None]) -> ast.Constant:
     Returns:
         ast.Constant: The ast constant node that represents the value.
     """
+    # An instance of a subclass of a plain type (a numpy scalar, an `IntEnum` member) is sent
+    # as the plain value: its own `repr` is not something a literal can be read back from.
+    for plain in (int, float, complex, str, bytes):
+        if isinstance(p, plain) and type(p) is not plain and not isinstance(p, bool):
+            p = plain(p)
+            break
     return ast.Constant(value=p, kind=None)
 
 
